@@ -200,3 +200,10 @@ Theorem C01_level_a_pop_is_ready_then_clear :
   exists w' k' s', pop b w = (PopReady i, w') /\ get_blk w' b = Some k' /\ steps B s s' /\ R k' s' /\ pp s' = PChild i n.
 Proof. exact pop_is_ready_then_clear. Qed.
 Print Assumptions C01_level_a_pop_is_ready_then_clear.
+
+Theorem C01_level_a_push_is_p_push :
+  forall (B b i : nat) (w : world) (k : block) (s : st) (r : ConcWake.pres),
+  get_blk w b = Some k -> i < length (bflags k) -> R k s -> pp s = PIdle r ->
+  exists k' s', get_blk (snd (enqueue_slot b i w)) b = Some k' /\ step B s s' /\ R k' s' /\ pp s' = PIdle RNone.
+Proof. exact enqueue_is_p_push. Qed.
+Print Assumptions C01_level_a_push_is_p_push.
